@@ -93,6 +93,19 @@ std::string compareMap(const Map& lib, const ref::RMap& m, bool tileGroups) {
 	return "";
 }
 
+// What the writer must produce for the logical map `m`, given what it did produce: the saved-game flag normalised to 0/1, no
+// trailing bytes, and the one undocumented word of the tile-group header "regenerated" - the property does not say to which
+// value, so the expectation adopts the written word (that it is a function of the map alone is what C06.byte-stable and C18
+// decide)
+static std::vector<uint8_t> expectedRewrite(ref::RMap m, const std::vector<uint8_t>& written) {
+	m.savedGame = m.savedGame ? 1 : 0;
+	m.trailing.clear();
+	std::vector<Field> fields;
+	std::vector<uint8_t> e = ref::encodeMap(m, &fields);
+	for (auto& f : fields) if (f.name == "groupsUnknown" && f.off + 4 <= e.size() && f.off + 4 <= written.size()) memcpy(e.data() + f.off, written.data() + f.off, 4);
+	return e;
+}
+
 struct MapStream : Family {
 	std::string name() const override { return "map-stream"; }
 
@@ -175,7 +188,7 @@ struct MapStream : Family {
 		for (auto& g : m.groups) if (g.idx.empty()) { ctx.count("probe.zero_area_group"); break; }
 		// write -> compare with consumed bytes (normalised) -> read -> write
 		std::vector<uint8_t> w1 = writeMap(plan, ctx, map, wb, "w1", "C06.rewrite-equals-consumed");
-		std::vector<uint8_t> want = ref::encodeMapCanonical(m);
+		std::vector<uint8_t> want = expectedRewrite(m, w1);
 		if (w1 != want) ctx.fail("C06.rewrite-equals-consumed", "written bytes differ from the consumed bytes (saved-game flag normalised, group header word regenerated): " + firstDiff(w1, want));
 		Map map2;
 		o = callLib(plan, [&] { ReaderBox b2 = openBackend(backend == "sim" || backend == "path" ? "mem" : backend, w1, "re", plan.seed ^ 9); map2 = Map::ReadMap(*b2.rd); }, &what);
@@ -226,7 +239,7 @@ struct MapStream : Family {
 				edited = true;
 			} else if (v == "write") {
 				std::vector<uint8_t> w = writeMap(plan, ctx, map, wb, "e" + std::to_string(oi), "C06.edit-exact");
-				std::vector<uint8_t> exp = ref::encodeMapCanonical(m);
+				std::vector<uint8_t> exp = expectedRewrite(m, w);
 				if (w != exp) ctx.fail("C06.edit-exact", "after the edit history the written bytes differ from the model's (each edit changes exactly what it names): " + firstDiff(w, exp));
 				ctx.event("write " + hex64(fnv1a(w.data(), w.size())));
 			} else throw std::runtime_error("unknown op " + v);
